@@ -1,4 +1,5 @@
 import Svgbob.Proofs.Independence
+import Svgbob.Proofs.MoveAll2
 /-!
 # C10 — separated sub-diagrams render independently of each other
 
@@ -36,6 +37,45 @@ theorem endorsement_independent (len : List Char → Nat) (cat : Catalogue) (ax 
     (hB : endorseAll len cat (cells.filter fun cc => !decide (ax.proj cc.1 ≤ t)) [] = some (FB, GB)) :
     F.Perm (FA ++ FB) ∧ G.Perm (GA ++ GB) :=
   endorseAll_independent len cat ax t cells hsep F FA FB G GA GB h hA hB
+
+/-- **a juxtaposition renders as the union of its parts**: drawing `A` and drawing `B` moved by
+`(k, n)` cells to the other side of a blank column or row give, as multisets, the fragments and
+groups of `A` alone plus those of `B` alone moved by `(k, n)` (C10 and C06 together) -/
+theorem juxtaposition_is_union (len : List Char → Nat) (cat : Catalogue) (ax : Axis) (t : Int)
+    (A B : Span) (k n : Int)
+    (hlow : ∀ cc ∈ A, ax.proj cc.1 ≤ t) (hhigh : ∀ cc ∈ Span.shift k n B, t + 2 ≤ ax.proj cc.1)
+    (F FA FB : List FragSpan) (G GA GB : List (List FragSpan))
+    (h : endorseAll len cat (A ++ Span.shift k n B) [] = some (F, G))
+    (hA : endorseAll len cat A [] = some (FA, GA))
+    (hB : endorseAll len cat B [] = some (FB, GB)) :
+    F.Perm (FA ++ FB.map (FragSpan.move k n)) ∧
+    G.Perm (GA ++ GB.map (List.map (FragSpan.move k n))) := by
+  have hsep : ∀ cc ∈ A ++ Span.shift k n B, ax.proj cc.1 ≤ t ∨ t + 2 ≤ ax.proj cc.1 := by
+    intro cc hcc
+    rcases List.mem_append.mp hcc with hc | hc
+    · exact Or.inl (hlow cc hc)
+    · exact Or.inr (hhigh cc hc)
+  have hfl : (A ++ Span.shift k n B).filter (fun cc => ax.proj cc.1 ≤ t) = A := by
+    rw [List.filter_append]
+    have h1 : A.filter (fun cc => decide (ax.proj cc.1 ≤ t)) = A :=
+      List.filter_eq_self.mpr (fun cc hc => by simpa using hlow cc hc)
+    have h2 : (Span.shift k n B).filter (fun cc => decide (ax.proj cc.1 ≤ t)) = [] :=
+      List.filter_eq_nil_iff.mpr (fun cc hc => by have := hhigh cc hc; simp; omega)
+    rw [h1, h2, List.append_nil]
+  have hfh : (A ++ Span.shift k n B).filter (fun cc => !decide (ax.proj cc.1 ≤ t)) = Span.shift k n B := by
+    rw [List.filter_append]
+    have h1 : A.filter (fun cc => !decide (ax.proj cc.1 ≤ t)) = [] :=
+      List.filter_eq_nil_iff.mpr (fun cc hc => by have := hlow cc hc; simp; omega)
+    have h2 : (Span.shift k n B).filter (fun cc => !decide (ax.proj cc.1 ≤ t)) = Span.shift k n B :=
+      List.filter_eq_self.mpr (fun cc hc => by have := hhigh cc hc; simp; omega)
+    rw [h1, h2, List.nil_append]
+  have hBs : endorseAll len cat (Span.shift k n B) [] =
+      some (FB.map (FragSpan.move k n), GB.map (List.map (FragSpan.move k n))) := by
+    have := endorseAll_shift len cat k n B []
+    simp only [List.map_nil, hB, Option.map_some, moveResult] at this
+    exact this
+  exact endorseAll_independent len cat ax t _ hsep F FA _ G GA _ h (by rw [hfl]; exact hA)
+    (by rw [hfh]; exact hBs)
 
 /-! Non-vacuity: two cells two columns apart satisfy the separation hypothesis for `t = 0`. -/
 example : ∀ cc ∈ ([(⟨0, 0⟩, 'a'), (⟨2, 0⟩, 'b')] : Span),
